@@ -403,3 +403,29 @@ func canaryRangeChan(ch chan int) int {
 	}
 	return s
 }
+
+func canaryOfferOnly(ch chan int, v int) {
+	select {
+	case ch <- v:
+	default:
+	}
+}
+
+func canaryOfferThenWait(ch chan int, v int) {
+	select {
+	case ch <- v:
+	default:
+		ch <- v
+	}
+}
+
+func canaryWaitsInSelect(ch chan int, done chan struct{}, v int) {
+	select {
+	case ch <- v:
+	case <-done:
+	}
+}
+
+func canaryPlainReceive(ch chan int) int {
+	return <-ch
+}
